@@ -331,6 +331,9 @@ func Eq(a, b *Term) *Term {
 	if a.IsInt() && b.IsInt() {
 		return Bool(a.Val.Cmp(b.Val) == 0)
 	}
+	if a.Sort == SInt && regionDistinct(a, b) {
+		return tFalse // a freshly allocated region differs from every region that existed before it
+	}
 	if a.Sort == SBool {
 		if a.IsTrue() {
 			return b
